@@ -68,7 +68,7 @@ def _work(mod_name, seed, idxs, tier, opts):
     import signal
     faulthandler.enable()
     faulthandler.register(signal.SIGUSR1, all_threads=True)
-    limit = opts.get('case_timeout', 120)
+    limit = opts.get('case_timeout', 300)
     faulthandler.dump_traceback_later(3 * limit * max(1, len(idxs)) + 60, exit=True)
     signal.signal(signal.SIGALRM, _alarm)
     mod = importlib.import_module(mod_name)
@@ -156,7 +156,7 @@ def main(mod_name, argv=None):
     chunks = [idxs[i:i + chunk] for i in range(0, len(idxs), chunk)]
     results = {}
     harness_errors = []
-    opts = {'case_timeout': tier.get('case_timeout', 120)}
+    opts = {'case_timeout': tier.get('case_timeout', 300)}
     ctx = mp.get_context('fork')
     stopped_early = False
     try:
@@ -285,7 +285,7 @@ def main(mod_name, argv=None):
     print(f'{mod.ID} {args.tier}: {evaluations} cases, {len(keys_nontrivial)} distinct non-trivial, '
           f'{len(violations)} violations, {len(harness_errors)} harness errors, {wall_s:.1f}s')
     timeouts = agg['outcomes'].get('case_timeout', 0)
-    if timeouts > max(3, evaluations // 20):
+    if timeouts > max(5, evaluations // 10):
         harness_errors.append(f'{timeouts} of {evaluations} cases hit the per-case wall limit')
     if harness_errors:
         for h in harness_errors[:5]:
